@@ -415,6 +415,39 @@ def run(ctx):
             ctx.check("C20.3", v[2] == want_c, sd0, g, f"set_data memory guard: room left = MAX_MEMORY_LEN - start_addrs + 1", "exactly the cells start_addrs .. MAX_MEMORY_LEN",
                       f"the data are compared with MAX_MEMORY_LEN - start_addrs {v[2]:+d}: " + ("one bit too few - a request that ends exactly on the last cell is cut with a warning, and a one-bit write at the last "
                       "address becomes a zero-length block" if v[2] < want_c else "too many - data are written past the end of the memory"))
+    # ---------------- C20.4 every channel is transferred from the same start address: the running address (advanced block by block inside
+    # the inner loop) is set back at the top of the channel loop.  Initialised once, ahead of the channel loop, the second channel is
+    # read (written) where the first one ended: get_data(size, start, CHs=[1, 2]) returns for channel 2 the cells start+size .. and,
+    # near the end of the memory, addresses beyond it
+    for mname in ("get_data", "set_data"):
+        mm = ci.methods.get(mname)
+        if mm is None:
+            continue
+        scopes_ = [mm] + [ci.methods[n_.func.attr] for n_ in body_nodes(mm) if isinstance(n_, ast.Call) and isinstance(n_.func, ast.Attribute) and isinstance(n_.func.value, ast.Name)
+                          and n_.func.value.id == "self" and n_.func.attr in ci.methods and n_.func.attr not in ("_query", "_check_channels")]
+        judged = False
+        for sc in scopes_:
+            for par in ast.walk(sc.node):
+                for ch_ in ast.iter_child_nodes(par):
+                    ch_._parent = par
+            for n_ in ast.walk(sc.node):
+                if not (isinstance(n_, ast.AugAssign) and isinstance(n_.op, ast.Add) and isinstance(n_.target, ast.Name)):
+                    continue
+                loops_ = [p_ for p_ in _parents(n_) if isinstance(p_, (ast.For, ast.While))]
+                if not loops_ or not any(isinstance(x, ast.Call) and src_of(x.func) == "self._query" and any(isinstance(y, ast.Name) and y.id == n_.target.id for y in ast.walk(x)) for x in ast.walk(loops_[0])):
+                    continue
+                judged = True
+                if len(loops_) < 2:
+                    ctx.holds("C20.4", sc, n_, f"{mname}: running address `{n_.target.id}` of one channel's transfer", "one block loop per call: the address starts from the argument")
+                    continue
+                outer, inner_ = loops_[1], loops_[0]
+                resets = [a_ for a_ in ast.walk(outer) if isinstance(a_, ast.Assign) and any(isinstance(t_, ast.Name) and t_.id == n_.target.id for t_ in a_.targets)
+                          and not any(p_ is inner_ for p_ in _parents(a_))]
+                ctx.check("C20.4", bool(resets), sc, n_, f"{mname}: running address `{n_.target.id}` set back for every channel", "assigned inside the channel loop, ahead of the block loop",
+                          f"`{n_.target.id}` is advanced block by block but never set back inside the channel loop: channel k is transferred from start_addrs + (k-1)*size instead of start_addrs - "
+                          f"{mname} over CHs=[1, 2] addresses other cells for channel 2 than for channel 1 (and, near the end of the memory, cells beyond it: ':DIG3:PATT:DATA? 2097153,1024')")
+        if not judged:
+            ctx.holds("C20.4", mm, mm.node, f"{mname}: no running address advanced inside a block loop", "addresses computed per block")
     # ---------------- C20.4 read-back reassembly
     gd = ci.methods.get("get_data")
     if gd is None:
